@@ -373,8 +373,8 @@ pub struct EntriesIter {
     // Stack of entry iterators for current directories being iterated over
     iters: Vec<EntryIter>,
 
-    // Stack of deferred directories to return after their contents
-    deferred: Vec<VfsEntry>,
+    // Stack of deferred directories, with their depth, to return after their contents
+    deferred: Vec<(usize, VfsEntry)>,
 
     // Optional filter that yields only entries that match the predicate
     #[allow(clippy::type_complexity)]
@@ -426,17 +426,17 @@ impl EntriesIter {
             return None;
         }
 
-        // Defer directories as directed
-        if entry.is_dir() && self.opts.contents_first {
-            self.deferred.push(entry);
-            return None;
-        }
-
         // Filter as directed
         if let Some(filter) = &mut self.filter {
             if !(filter)(&entry) {
                 return None;
             }
+        }
+
+        // Defer directories as directed
+        if entry.is_dir() && self.opts.contents_first {
+            self.deferred.push((depth, entry));
+            return None;
         }
 
         Some(Ok(entry))
@@ -487,8 +487,8 @@ impl Iterator for EntriesIter {
         // Loop here to ensure that we get the next entry when filtering or deferring
         while !self.iters.is_empty() {
             // Return deferred directories if we've already processed their children
-            if self.opts.contents_first && self.iters.len() < self.deferred.len() {
-                if let Some(entry) = self.deferred.pop() {
+            if self.deferred.last().map_or(false, |x| self.iters.len() <= x.0) {
+                if let Some((_, entry)) = self.deferred.pop() {
                     return Some(Ok(entry));
                 }
             }
@@ -512,10 +512,8 @@ impl Iterator for EntriesIter {
         }
 
         // Return root directory for deferred case
-        if self.opts.contents_first && self.iters.len() < self.deferred.len() {
-            if let Some(entry) = self.deferred.pop() {
-                return Some(Ok(entry));
-            }
+        if let Some((_, entry)) = self.deferred.pop() {
+            return Some(Ok(entry));
         }
 
         None
